@@ -111,6 +111,29 @@ fn string_templates(rng: &mut Rng, n: usize) -> Vec<(String, String, String)> {
     v
 }
 
+/// `match` on products with void components (no stack slot) in operand position: an earlier arm fails on a refutable
+/// sub-pattern, a later arm is taken; the failure clean-up must pop exactly the remaining non-void components
+fn product_void_templates() -> Vec<(String, String, String)> {
+    let mut v = vec![];
+    let defs = "type Sv = {\n  a: int\n  b: string\n  z: void\n}\ntype Vv =\n  | Cc(bool, void)\n  | Dd(int, void, int)\n  | Ee\n\
+        fn t2(p: (int, void)) -> int {\n  let s = 1000\n  let r = 10 + match p {\n    (1, _) -> 1\n    (2, nil) -> 2\n    (_, _) -> 9\n  }\n  s + r\n}\n\
+        fn t3(p: (int, string, void)) -> string {\n  let tag = \"p:\"\n  tag .. match p {\n    (7, \"a\", _) -> \"7a\"\n    (7, \"b\", _) -> \"7b\"\n    (_, _, _) -> \"other\"\n  }\n}\n\
+        fn tm(p: (void, int, void, bool)) -> int {\n  100 + match p {\n    (_, 1, _, true) -> 1\n    (nil, 1, nil, false) -> 2\n    (_, k, _, _) -> k\n  }\n}\n\
+        fn ts(p: Sv) -> int {\n  5 + match p {\n    Sv(1, \"x\", _) -> 1\n    Sv(1, \"y\", nil) -> 2\n    Sv(n, _, _) -> n * 10\n  }\n}\n\
+        fn tv(p: Vv) -> int {\n  7 + match p {\n    .Cc(true, _) -> 1\n    .Cc(false, nil) -> 2\n    .Dd(1, _, 2) -> 3\n    .Dd(1, _, k) -> k\n    .Dd(a, _, b) -> a + b\n    .Ee -> 0\n  }\n}\n";
+    let src = format!(
+        "{defs}println(t2((1, nil)))\nprintln(t2((2, nil)))\nprintln(t2((3, nil)))\n\
+         println(t3((7, \"a\", nil)))\nprintln(t3((7, \"b\", nil)))\nprintln(t3((8, \"b\", nil)))\n\
+         println(tm((nil, 1, nil, true)))\nprintln(tm((nil, 1, nil, false)))\nprintln(tm((nil, 5, nil, false)))\n\
+         println(ts(Sv(1, \"x\", nil)))\nprintln(ts(Sv(1, \"y\", nil)))\nprintln(ts(Sv(4, \"y\", nil)))\n\
+         println(tv(Vv.Cc(true, nil)))\nprintln(tv(Vv.Cc(false, nil)))\nprintln(tv(Vv.Dd(1, nil, 2)))\nprintln(tv(Vv.Dd(1, nil, 6)))\nprintln(tv(Vv.Dd(3, nil, 4)))\nprintln(tv(Vv.Ee))\n\
+         for q in [(1, nil), (3, nil)] {{\n  let (x, u) = q\n  println(x + t2(q))\n}}\nprintln(\"done\")\n"
+    );
+    let exp = "1011\n1012\n1019\np:7a\np:7b\np:other\n101\n102\n105\n6\n7\n45\n8\n9\n10\n13\n14\n7\n1012\n1022\ndone\n".to_string();
+    v.push(("product-void".into(), src, exp));
+    v
+}
+
 fn main() {
     let mut ctx = Ctx::from_env("C01");
     let base = probe_shapes(&mut ctx);
@@ -128,7 +151,8 @@ fn main() {
 
     // ---- string comparisons in operand positions (the resumable string instructions share progress registers)
     let mut srng = Rng::new(ctx.rng.next());
-    let sts = string_templates(&mut srng, if ctx.quick() { 90 } else { 1500 });
+    let mut sts = string_templates(&mut srng, if ctx.quick() { 90 } else { 1500 });
+    sts.extend(product_void_templates());
     let sres = par_map(&sts, |(_, src, _)| {
         BUDGETS.iter().map(|b| run_program_opts(src, &RunOpts { budgets: vec![*b], max_steps: 1_000_000, files: vec![] })).collect::<Vec<_>>()
     });
@@ -145,10 +169,10 @@ fn main() {
             }
         }
         match bad {
-            None => ctx.count("strcmp-template:ok"),
+            None => ctx.count(if name == "product-void" { "product-void-template:ok" } else { "strcmp-template:ok" }),
             Some(why) => {
-                ctx.count("strcmp-template:FAILS");
-                ctx.spec_fail(format!("string comparison in operand position ({name}): {why}\n{src}"));
+                ctx.count(if name == "product-void" { "product-void-template:FAILS" } else { "strcmp-template:FAILS" });
+                ctx.spec_fail(format!("operand-position template ({name}): {why}\n{src}"));
             }
         }
     }
